@@ -147,6 +147,20 @@ def main():
                 chk.inconclusive.append('%s %s' % (m[2], m[1]))
                 continue
             chk.violation(m[2], {'main.lay': r['text']}, {'cfg': m[1], 'expected': r['expected'], 'observed': m[3]})
+    # boundary: a raise far down a long file (line numbers are stored as u16: known finding D26)
+    d = os.path.join(WORK[0], 'longfile')
+    os.makedirs(d, exist_ok=True)
+    for line_no in (300, 65535, 70001):
+        p = os.path.join(d, 'raise_on_line_%d.lay' % line_no)
+        open(p, 'w').write('\n' * (line_no - 1) + 'raise Error("far");\n')
+        r = vlib.lyrun(BINS['rel'], p, [], timeout=60, cwd=d)
+        chk.evaluations += 1
+        tb = parse_traceback(r.err)
+        want = ['raise_on_line_%d.lay:%d in script' % (line_no, line_no)]
+        if r.outcome != 'error:Error' or tb is None or tb[0] != want:
+            chk.violation('traceback: raise_on_line_%d reported as %r (outcome %s)' % (line_no, tb[0] if tb else None, r.outcome),
+                          {'note.txt': 'file with %d empty lines and then: raise Error("far");' % (line_no - 1)},
+                          {'expected': want})
     chk.extra['feature_tags'] = tags
     chk.rule = ('call chains of depth 1-10 through functions, methods, static methods, initialisers, let-named and '
                 'anonymous lambdas and native callbacks (each/map/reduce), ending in an explicit raise (with or without '
